@@ -221,6 +221,9 @@ class KernelDomain(IndexDomain):
             return Shaped(target.shape, target.label, origin=('bmul', target, val))
         if isinstance(target, Shaped) and self._scalar_like(val):
             return None
+        if isinstance(target, Shaped) and isinstance(val, Shaped):
+            self.interp.emit('ewise', op=type(op).__name__, a=target, b=val, node=node)
+            return Shaped(target.shape, target.label, origin=(type(op).__name__, target, val))
         return IndexDomain.augassign(self, op, target, val, node)
 
     def getattr(self, v, name, node):
@@ -265,6 +268,10 @@ class KernelDomain(IndexDomain):
         return IndexDomain.subscript(self, v, idx, node)
 
     def store_subscript(self, target, idx, val, node):
+        if isinstance(target, (Vec, Mat)):
+            self.interp.emit('vecstore', target=target, index=idx, value=val, node=node, before=target.elem)
+            target.overwritten = getattr(target, 'overwritten', []) + [(idx, val, node)]
+            return True
         if isinstance(target, PieceVec):
             if isinstance(idx, Slice):
                 lo = idx.lo if not (isinstance(idx.lo, Const) and idx.lo.v is None) else Const(0)
